@@ -14,7 +14,6 @@ PosZero8 == <<0, 0, 0, 0, 0, 0, 0, 0>>
 NegZero8 == <<128, 0, 0, 0, 0, 0, 0, 0>>
 NonFinite64(b) == b[1] % 128 = 127 /\ b[2] >= 240
 NonFinite32(b) == b[1] % 128 = 127 /\ b[2] >= 128
-S(str) == str       \* names below are byte sequences
 NaNName == <<78, 97, 78>>
 InfName == <<73, 110, 102, 105, 110, 105, 116, 121>>
 EnumNames == (PosZero8 :> <<69, 48>>) @@ (<<0, 0, 0, 0, 0, 0, 0, 1>> :> <<69, 49>>) @@ (<<0, 0, 0, 0, 0, 0, 0, 2>> :> <<69, 50>>)
@@ -69,14 +68,14 @@ Why(d, v, mt, msgs, o) ==
             sf.card \o "-" \o (IF sf.card = "map" THEN sf.kkind \o "-" ELSE "") \o sf.kind
 
 \* ---- canonical rendering (for the model-side laws): the dump a straightforward printer's text has ----
-DBase == [k |-> "null", b |-> <<>>, isint |-> FALSE, i |-> PosZero8, isuint |-> FALSE, u |-> PosZero8, f |-> PosZero8, f32 |-> <<0, 0, 0, 0>>, e |-> <<>>]
+DBase == [k |-> "null", b |-> <<>>, isint |-> FALSE, i |-> PosZero8, isuint |-> FALSE, u |-> PosZero8, f |-> PosZero8, f32 |-> <<0, 0, 0, 0>>, f32d |-> <<0, 0, 0, 0>>, src |-> "", e |-> <<>>]
 MBase(n, v) == [n |-> n, nisint |-> FALSE, ni |-> PosZero8, nisuint |-> FALSE, nu |-> PosZero8, v |-> v]
 CanonScalar(v, o) ==
   IF v.k = "bool" THEN [DBase EXCEPT !.k = "bool", !.b = <<IF IsZero(v.b) THEN 0 ELSE 1>>]
   ELSE IF v.k \in SignedKinds THEN [DBase EXCEPT !.k = IF o.i2s /\ Is64(v.k) THEN "str" ELSE "num", !.isint = TRUE, !.i = Val8(v), !.isuint = Val8(v)[1] < 128, !.u = Val8(v)]
   ELSE IF v.k \in UnsignedKinds THEN [DBase EXCEPT !.k = IF o.i2s /\ Is64(v.k) THEN "str" ELSE "num", !.isuint = TRUE, !.u = Val8(v), !.isint = Val8(v)[1] < 128, !.i = Val8(v)]
-  ELSE IF v.k = "double" THEN (IF NonFinite64(v.b) THEN [DBase EXCEPT !.k = "str", !.b = NaNName] ELSE [DBase EXCEPT !.k = "num", !.f = v.b])
-  ELSE IF v.k = "float" THEN (IF NonFinite32(v.b) THEN [DBase EXCEPT !.k = "str", !.b = NaNName] ELSE [DBase EXCEPT !.k = "num", !.f32 = v.b])
+  ELSE IF v.k = "double" THEN (IF NonFinite64(v.b) THEN [DBase EXCEPT !.k = "str", !.b = NaNName] ELSE [DBase EXCEPT !.k = "num", !.f = v.b, !.src = "f"])
+  ELSE IF v.k = "float" THEN (IF NonFinite32(v.b) THEN [DBase EXCEPT !.k = "str", !.b = NaNName] ELSE [DBase EXCEPT !.k = "num", !.f32 = v.b, !.f32d = v.b, !.src = "f32"])
   ELSE IF v.k = "string" THEN [DBase EXCEPT !.k = "str", !.b = v.b]
   ELSE [DBase EXCEPT !.k = "str", !.b = B64Enc(v.b)]
 CanonKey(kv, dv) ==
